@@ -59,8 +59,13 @@ pub fn check_fmt(c: &FmtCase) -> Verdict {
         match c.kind {
             Kind::Disp => {
                 let scale = c.d.scale as i128;
-                let zero_pad = if scale <= 0 { (-scale) as u128 + if n > 0 { n as u128 + 1 } else { 0 } } else { 0 };
-                if scale <= 0 && zero_pad > cfg.padding as u128 {
+                let frac_pad = if n > 0 { n as u128 + 1 } else { 0 };
+                let zero_pad = if scale <= 0 { (-scale) as u128 + frac_pad } else { 0 };
+                // a zero has no integer digits to pad: whether its (absent) integer zeros count towards
+                // the limit is not fixed by the statement, so in that band either form is accepted
+                let ambiguous_zero = c.d.is_zero() && scale < 0 && frac_pad <= cfg.padding as u128 && zero_pad > cfg.padding as u128;
+                let unpadded = if ambiguous_zero { !body.contains('.') && (n > 0 || body.contains('e')) } else { scale <= 0 && zero_pad > cfg.padding as u128 };
+                if unpadded {
                     // beyond the padding limit: unpadded, still the exact value
                     v.labels.push("beyond-padding-limit");
                     v.nontrivial = true;
